@@ -34,7 +34,7 @@ class SessionModel(object):
             if ec is not None:
                 table = {'refused': ('ConnectionRefusedError',), 'timeout': ('TcpTimeoutException',), 'silent': TIMEOUT_EXCS,
                          'noauthkeys': ('DeviceAuthError',), 'badchallenge': ('InvalidResponseError',)}
-                if ec == 'ok':
+                if ec in ('ok', 'okauth'):
                     self.connected = True
                     return ('value', True)
                 return ('exc', table[ec], None)
@@ -59,8 +59,10 @@ class SessionModel(object):
             return ('value', None)
         if k == 'locks':
             return ('locks',)
-        if k == 'usb_heal':
+        if k in ('usb_heal', 'ghost'):
             return ('value', None)
+        if k == 'ghost_resume':
+            return ('any',)
         if k == 'maxchunk':
             return ('any',)
         if k == 'ss_create':
@@ -73,6 +75,10 @@ class SessionModel(object):
                 self.pending_ss = None
             if cop is None:
                 return ('value', [])
+            if op.get('expect_stale'):
+                # the generator belongs to an earlier life of the connection: it has nothing to read any more and must not make anything up
+                self.pending_ss = None
+                return ('mustraise',)
             if not self.connected:
                 self.pending_ss = None
                 return ('exc', ('AdbConnectionError',), None)
@@ -199,6 +205,10 @@ def check_session(run, scn, actor=0, model=None, relaxed_from=None):
             if op['op'] == 'connect':
                 m.connected = bool(rec['ok'] and rec['value'])
             continue
+        if exp[0] == 'mustraise':
+            if rec['ok'] and rec['value']:
+                probs.append(P('wrong-result', '%s returned %s although its stream belongs to a connection that was closed before' % (where, brief(rec['value']))))
+            continue
         if exp[0] == 'exc':
             if rec['ok']:
                 if not relaxed:
@@ -235,6 +245,12 @@ def check_session(run, scn, actor=0, model=None, relaxed_from=None):
                     probs.append(P('reason-missing', '%s raised PushFailedError without the device\'s reason %r (args=%r)' % (where, exp[1][:60], getattr(e, 'args', None))))
                 continue
             if relaxed:
+                continue
+            if exp[0] == 'push' and op.get('may_raise'):
+                # the source holds something push() is not specified for (a sub-directory): it may give up, but what it did
+                # deliver before must be right -- under the right name, with the right content, once
+                sub = check_push(run, op, rec, where, actor if len(run.results) > 1 else None)
+                probs += [p for p in sub if p[0] in ('push-content', 'push-extra', 'push-duplicate', 'push-mode')]
                 continue
             tag = 'timeout-instead-of-result' if rec['exc'] in TIMEOUT_EXCS else 'unexpected-exception'
             probs.append(P(tag, '%s raised %s: %s' % (where, rec['exc'], rec.get('msg'))))
